@@ -93,7 +93,14 @@ def program_lines(idx, n):
     return lines
 
 
+# naming of the files on a tape: 'plain' F<index><kind>, or 'prefix': every later name is a proper
+# prefix of all earlier ones (NXXXXX, NXXXX, ...), which only an exact comparison of names tells apart
+_NAMING = ['plain']
+
+
 def fname(idx, kind):
+    if _NAMING[0] == 'prefix':
+        return b'N' + b'X' * (5 - idx)
     return b'F%d%s' % (idx, kind.encode())
 
 
@@ -342,6 +349,15 @@ def read_file(s, part, case, tape, pos, t, what, wrapped=False, nameless=False):
 def run_tape(part, fmt, tape, orders, case=None):
     """Write a tape, read it back in the given orders."""
     case = case or {'fmt': fmt, 'tape': [list(f) for f in tape], 'orders': orders}
+    fmt, _plus, naming = fmt.partition('+')
+    _NAMING[0] = naming or 'plain'
+    try:
+        _run_tape(part, fmt, tape, orders, case)
+    finally:
+        _NAMING[0] = 'plain'
+
+
+def _run_tape(part, fmt, tape, orders, case):
     fast.no_sleep()
     fast.quiet()
     with H.Scratch('pcbverif_c29_') as sc:
@@ -528,6 +544,13 @@ def legs(ctx):
                    bound='3-file CAS tapes (%d): tokenised/protected/memory file of more than one block (stream length '
                          'U+1, 2U, 2U+1), then a data/ASCII file (0, 7, U bytes), then a data or program file; read in '
                          'order and skip-to-second/third' % len(tapes)))
+    # names that are prefixes of each other: same-kind and compatible-kind files, the shorter name looked up first
+    tapes = [((k1, 5), (k2, 7), (k3, 3)) for k1 in KINDS for k2 in KINDS for k3 in (KINDS if not q else 'DB')]
+    out.append(Leg('prefix-names', [('CAS+prefix', ['order', 'skip', 'wrap'], ch) for ch in chunked(tapes, 5)], work_tapes,
+                   exhaustive=True,
+                   bound='3-file CAS tapes (%d) named NXXXXX, NXXXX, NXXX (each later name a proper prefix of the earlier ones): '
+                         'all kind triples%s; read in order, skip-to-second/third, and wrapped' % (
+                             len(tapes), ' with the third in {D,B}' if q else '')))
     if q:
         tapes = [((k, n), SECOND[k]) for k in KINDS for n in boundary_sizes(k, 0)]
     else:
